@@ -33,7 +33,7 @@ def cases(tier, seed):
     n = 100 if tier == "quick" else 5000
     for i in range(n):
         yield {"kind": "tree", "seed": seed, "idx": i}
-    for i in range(10 if tier == "quick" else 300):
+    for i in range(14 if tier == "quick" else 300):
         yield {"kind": "prevent", "seed": seed, "idx": i}
 
 
@@ -170,8 +170,11 @@ def run_prevent(case, out, fail):
     rng = core.rng_for(case["seed"], ID, "prevent", case["idx"])
     tid = "P%d_%d" % (case["seed"], case["idx"])
     f = [rng.randrange(6) for _ in range(5)]
-    inner = rng.choice([["call", f[2], 2], ["kwcall", f[2], 2], ["partial", f[2], 2], ["batch", f[2], [2, 2]],
-                        ["ctxcall", f[2], 2, {"tenant": 9}]])
+    # every form of nested call in turn (the case index decides, not a draw): also a nested call that attaches context
+    # arguments of its own, with the same or other keys than the root's
+    forms = [["call", f[2], 2], ["kwcall", f[2], 2], ["partial", f[2], 2], ["batch", f[2], [2, 2]],
+             ["ctxcall", f[2], 2, {"tenant": 9}], ["ctxcall", f[2], 2, {"asof": "2020-01-01"}], ["ctxcall", f[2], 2, {}]]
+    inner = forms[case["idx"] % len(forms)]
     tree = {"id": tid, "nodes": [
         {"fn": f[0], "steps": [["prevent", f[1], 1], ["call", f[3], 3]], "fail": None},
         {"fn": f[1], "steps": [inner, ["resource", "res://p"]], "fail": None},   # runs with further calls prevented
